@@ -113,16 +113,24 @@ def lns(ctx, names):
     return [Line(_nz(ctx, vec(ctx, k, 3))) for k in names]
 
 
-def b_PQ(dim=2):
+def b_PQ(dim=2, finite=False):
     def b(ctx):
         from geometer import PointCollection
-        return [("c", PointCollection, pts(ctx, ["p0", "p1"], dim)), ("c", PointCollection, pts(ctx, ["q0", "q1"], dim))]
+        ps, qs = pts(ctx, ["p0", "p1"], dim), pts(ctx, ["q0", "q1"], dim)
+        if finite:
+            for x in ps + qs:
+                ctx.assume(ctx.neg(ctx.is_zero(E(x)[-1])))
+        return [("c", PointCollection, ps), ("c", PointCollection, qs)]
     return b
 
 
-def b_Pq(ctx):
+def b_Pq(ctx, finite=False):
     from geometer import PointCollection
-    return [("c", PointCollection, pts(ctx, ["p0", "p1"])), ("s", pts(ctx, ["q"])[0])]
+    ps, q = pts(ctx, ["p0", "p1"]), pts(ctx, ["q"])[0]
+    if finite:
+        for x in ps + [q]:
+            ctx.assume(ctx.neg(ctx.is_zero(E(x)[-1])))
+    return [("c", PointCollection, ps), ("s", q)]
 
 
 def b_LP(ctx):
@@ -158,6 +166,11 @@ def b_P(ctx):
 def b_PQR(ctx):
     from geometer import PointCollection
     return [("c", PointCollection, pts(ctx, [f"{k}0", f"{k}1"])) for k in "pqr"]
+
+
+def b_PQRS(ctx):
+    from geometer import PointCollection
+    return [("c", PointCollection, pts(ctx, [f"{k}0", f"{k}1"])) for k in "pqrs"]
 
 
 def b_TP(ctx):
@@ -225,12 +238,15 @@ def b_S(ctx):
     return [("c", SegmentCollection, _segments(ctx))]
 
 
-def _polys(ctx, dim=2):
+def _polys(ctx, dim=2, shear=True):
     from geometer import Polygon, Point
     base = [[(0, 0), (2, 0), (2, 2), (0, 2)], [(0, 0), (3, 0), (1, 1), (0, 2)]]
     out = []
     for k, poly in enumerate(base):
-        sx = ctx.real(f"sx{k}")
+        sx = ctx.real(f"sx{k}") if shear else 0
+        if shear:
+            ctx.assume(ctx.lt(-1, sx))
+            ctx.assume(ctx.lt(sx, 1))
         if dim == 2:
             out.append(Polygon(*[Point(mk_array(ctx, [x + (sx if x else 0), y, 1])) for x, y in poly]))
         else:
@@ -242,8 +258,18 @@ def _polys(ctx, dim=2):
 def b_POLY_P(dim=2):
     def b(ctx):
         from geometer import PolygonCollection, PointCollection
-        return [("c", PolygonCollection, _polys(ctx, dim)), ("c", PointCollection, pts(ctx, ["p0", "p1"], dim))]
+        return [("c", PolygonCollection, _polys(ctx, dim, shear=False)), ("c", PointCollection, pts(ctx, ["p0", "p1"], dim))]
     return b
+
+
+def b_POLY_p3(ctx):
+    from geometer import PolygonCollection
+    return [("c", PolygonCollection, _polys(ctx, 3, shear=False)), ("s", pts(ctx, ["p"], 3)[0])]
+
+
+def b_POLY_p2(ctx):
+    from geometer import PolygonCollection
+    return [("c", PolygonCollection, _polys(ctx, 2, shear=False)), ("s", pts(ctx, ["p"], 2)[0])]
 
 
 def b_POLY(dim=2):
@@ -313,9 +339,10 @@ def ops():
         ("add_broadcast", b_Pq, lambda P, q: P + q, Q),
         ("mul_scalar", b_P, lambda P: 3 * P, Q),
         ("div_scalar", b_P, lambda P: P / 2, Q),
-        ("dist_pp", b_PQ(2), lambda P, Q_: dist(P, Q_), Q),
-        ("dist_pp_broadcast", b_Pq, lambda P, q: dist(P, q), Q),
+        ("dist_pp", b_PQ(2, True), lambda P, Q_: dist(P, Q_), Q),
+        ("dist_pp_broadcast", (lambda ctx: b_Pq(ctx, True)), lambda P, q: dist(P, q), Q),
         ("is_collinear", b_PQR, lambda P, Q_, R_: is_collinear(P, Q_, R_), Q),
+        ("is_collinear4", b_PQRS, lambda P, Q_, R_, S_: is_collinear(P, Q_, R_, S_), Q),
         ("is_perpendicular", b_LM, lambda L, M: is_perpendicular(L, M), Q),
         ("transform_points", b_TP, lambda T_, P: T_ * P, Q),
         ("transform_lines", b_TL, lambda T_, L: T_ * L, Q),
@@ -331,6 +358,8 @@ def ops():
         ("polygon_contains", b_POLY_P(2), lambda C, P: C.contains(P), Q),
         ("polygon_area", b_POLY(2), lambda C: C.area, Q),
         ("polygon3d_contains", b_POLY_P(3), lambda C, P: C.contains(P), Q),
+        ("polygon3d_contains_broadcast", b_POLY_p3, lambda C, p: C.contains(p), Q),
+        ("polygon_contains_broadcast", b_POLY_p2, lambda C, p: C.contains(p), Q),
         ("polygon3d_area", b_POLY(3), lambda C: C.area, T),
     ]
     return o
